@@ -78,7 +78,7 @@ def check(chk: Check) -> None:
     probe = cases(K.Wire(Interp(prog)))
     for ci in range(len(probe)):
         for integ, mod, parser in parsers:
-            for split_frames in (False, True):
+            for split_frames, prior in ((False, False), (True, False), (False, True)):
                 cls_id, desc, phys = probe[ci][0], probe[ci][1], probe[ci][2]
 
                 def scenario(it: Interp) -> Any:
@@ -90,6 +90,18 @@ def check(chk: Check) -> None:
                         frames = [w.frame(head + before), w.frame(offending)] if (head or before) else [w.frame(offending)]
                     else:
                         frames = [w.frame(head + before + offending)]
+                    if prior:
+                        # an unrelated, valid stream was parsed earlier in the same process (both integrations):
+                        # nothing of it may complete or mask the violating stream
+                        wp = K.Wire(it)
+                        pf = [wp.frame([wp.options_row(ph or 1, 0)] + _entries(wp) + [_good_triple(wp)] + (wp.statement_rows(ph or 1, 1, "prior") if ph in (2, 3) else []))]
+                        if (ph or 1) == 1:
+                            for m_ in (K.GP, K.RP):
+                                it.drain(k.call(k.get(m_, "parse_jelly_flat"), k.input_stream(list(pf))))
+                        else:
+                            pq = [wp.frame([wp.options_row(ph, 0)] + wp.statement_rows(ph, 2, "prior"))]
+                            for m_ in (K.GP, K.RP):
+                                it.drain(k.call(k.get(m_, "parse_jelly_flat"), k.input_stream(list(pq))))
                     inp = k.input_stream(frames)
                     got: list = []
                     valid_before = _valid_statement_rows(before)
@@ -105,7 +117,7 @@ def check(chk: Check) -> None:
                         return ("raised", it.exc_class_name(pr.exc), len(got), valid_before, pr.site)
                     return ("accepted", None, len(got), valid_before, [repr(x)[:200] for x in got[-2:]])
 
-                inst = f"{cls_id}: {desc} | {integ}.{parser} | {'offending row in a later frame' if split_frames else 'single frame'}"
+                inst = f"{cls_id}: {desc} | {integ}.{parser} | {'offending row in a later frame' if split_frames else 'single frame'}{' | after parsing another stream in the same process' if prior else ''}"
                 for it, out in explore(prog, scenario, max_paths=16, generic_strings=True):
                     chk.paths += 1
                     chk.saw_functions(it)
